@@ -29,7 +29,7 @@ def opaque_bg(bg_arg):
     """Background colour as a CSS consumer reads it; None when it is translucent / has ties (callers
     then fall back to the library's own composite after a tolerance check)."""
     try:
-        s = ocss.read_rgb_set(bg_arg)
+        s = ocss.read_input_set(bg_arg)
     except ocss.CssReject:
         return None
     return next(iter(s)) if len(s) == 1 else None
